@@ -252,10 +252,9 @@ TxSeq(R, q) == SortBy(TxList(R, q), LAMBDA x : x.id, q.order)
 LogSeq(R, q) == SortBy(LogList(R, q), LAMBDA x : x.id, q.order)
 AcctSeq(R, q) == SortBy(AcctList(R, q), LAMBDA x : R.rk[x.addr], q.order)
 \* a total order for volumes: account, then asset ascending (the order the rows are produced in)
-VolSeq(R, q) == LET na == Cardinality(DOMAIN R.rk) + 1
-                IN SortSeq(SetToSeq(VolList(R, q)),
-                           LAMBDA x, y : \/ Less(q.order, R.rk[x.a], R.rk[y.a])
-                                         \/ (x.a = y.a /\ R.rk[x.as] < R.rk[y.as]))
+VolSeq(R, q) == SortSeq(SetToSeq(VolList(R, q)),
+                        LAMBDA x, y : \/ Less(q.order, R.rk[x.a], R.rk[y.a])
+                                      \/ (x.a = y.a /\ R.rk[x.as] < R.rk[y.as]))
 
 Count(S) == Cardinality(S)
 
